@@ -257,6 +257,17 @@ def sc_fit(cx, keys, minimizer, variant):
 
     mu = Multi(cx, keys, minimizer=minimizer, pre=pre)
     mf = mu.mf
+    if variant == "member-fixed-before":
+        # right after construction, before anything is set on the multi-fit: the member's fixed value is the multi-fit's
+        nm_, v_ = v_pre["fix"]
+        t_ = "fit/%s/%s/%s" % ("+".join(keys), minimizer, variant)
+        cx.eq(t_ + ":fixed-value-carried-into-multi-fit", mf.parameter_values[list(mf.parameter_names).index(nm_)], v_)
+        cx.concrete(t_ + ":fixed-in-multi-fit", nm_ in _joint_fixed(mu), info="%r" % (list(_joint_fixed(mu)),))
+        if nm_ in _joint_fixed(mu):
+            cx.eq(t_ + ":fixed-value-recorded-in-multi-fit", _joint_fixed(mu)[nm_], v_)
+        for pb_ in mu.members:
+            if nm_ in pb_.par_names:
+                cx.eq(t_ + ":fixed-value-in-member-%s" % pb_.prefix, pb_.fit.parameter_values[list(pb_.fit.parameter_names).index(nm_)], v_)
     mu.set_point(tag="start")
     if variant == "member-limited-before":
         cx.assume(mu.vals[v_pre["lim"][0]] > v_pre["lim"][1])  # start value inside the limits (MINUIT moves it inside otherwise)
